@@ -189,3 +189,23 @@ decoder(
           # a decoded child spans the whole value of ITS OWN node (C13: the xor is applied to the bytes of the array it hangs under)
           "children-span-the-value": "forall(range(nchildren(node)), lambda k: child_at(node, k).start == 0 and child_at(node, k).end == len(node.value))"},
 )
+
+
+# ---- the language of the pattern constants (C11 / C13 / C14): every other clause is stated RELATIVE to the constant, so a change of the constant itself
+# would be invisible.  Each pin is written from the wording of the property, deliberately not as a copy of the source text: the obligation is the
+# equivalence of two regular languages (look-arounds / anchors erased on both sides), not a comparison of texts.
+def pin(qualname, **pins):
+    from pyvc.contract import CONTRACTS
+
+    CONTRACTS[qualname].pins.update(pins)
+
+
+pin("multidecoder.decoders.filename.find_executable_name", EXECUTABLE_RE=rb"(?i)[a-z0-9_]+[.]exe")
+pin("multidecoder.decoders.filename.find_library", LIBRARY_RE=rb"(?i)[a-z0-9_]+[.]dll")
+pin("multidecoder.decoders.path.find_path", PATH_RE=rb"[.]{0,2}/(?:[A-Za-z0-9_]{3,}/)+[A-Za-z0-9_.]{3,}")
+pin("multidecoder.decoders.hex.find_hex", HEX_RE=rb"(?:[0-9a-f][0-9a-f]){10,}|(?:[0-9A-F][0-9A-F]){10,}")
+pin("multidecoder.decoders.javascript.find_unescape", UNESCAPE_RE=rb"unescape[(]'[^']*'[)]")
+pin("multidecoder.decoders.chr.find_chr", CHR_RE=rb"(?i)chr(?:b|w|)[(]0*[0-9]{1,5}[)]")
+pin("multidecoder.decoders.xml.find_xml_hex", XML_ESCAPE_RE=rb"(?i)(?:&#(?:x[0-9a-f]{2}|25[0-5]|2[0-4][0-9]|[01]?[0-9]{1,2});){5,}")
+pin("multidecoder.decoders.codec.find_utf16",
+    UTF16_RE=rb"(?s)(?:[\x09-\x0d\x20-\x7e\xa0-\xff]\x00){7,}(?:\x00\x00(?:\x00\x00)?(?:[\x09-\x0d\x20-\x7e\xa0-\xff]\x00){7,})*")
